@@ -240,6 +240,21 @@ def relational(rep, rng, tier):
                     so5a, so5b = qutip.SESolver(H, options=opts), qutip.SESolver(H, options=opts)
                     so5a.start(psi0, 0); so5b.start(psi_other, 0)
                     a1 = so5a.step(0.5); so5b.step(0.8); a2 = so5a.step(1.0)
+                    # 5b. options changed on a used solver object (tolerances, then the integration method and back): the next
+                    #     run is the run of a solver built with those options
+                    so7 = qutip.SESolver(H, options=opts)
+                    so7.run(psi_other, [0, 0.6])
+                    if method in ("adams", "bdf", "lsoda", "dop853", "vern7", "vern9"):
+                        so7.options["atol"] = 1e-4
+                        so7.options["rtol"] = 1e-3
+                        so7.run(psi0, [0, 0.5])
+                        so7.options["atol"] = opts["atol"]
+                        so7.options["rtol"] = opts["rtol"]
+                    other_method = "dop853" if method != "dop853" else "vern7"
+                    so7.options = {"method": other_method, "progress_bar": "", "atol": 1e-10, "rtol": 1e-8}
+                    o7a = so7.run(psi0, part).states
+                    so7.options = dict(opts)
+                    o7b = so7.run(psi0, part).states
                     # 6. master-equation solvers built from one and the same time-dependent Liouvillian object: giving one of
                     #    them new arguments in between does not reach the other
                     extra = []
@@ -267,7 +282,8 @@ def relational(rep, rng, tier):
                      ("restart", r2, refd[1.0]), ("start-step", st[-1], refd[1.0]), ("start-step", st[0], refd[0.25]),
                      ("past-use", s4[-1], refd[1.0]), ("past-use", s4[1], refd[0.125]),
                      ("past-use-eigenstate", s6[-1], refd[1.0]), ("past-use-eigenstate", s6[4], refd[0.5]),
-                     ("interleaved", a2, refd[1.0]), ("interleaved", a1, refd[0.5])] + extra
+                     ("interleaved", a2, refd[1.0]), ("interleaved", a1, refd[0.5]),
+                     ("options-changed", o7a[-1], refd[1.0]), ("options-changed-back", o7b[-1], refd[1.0]), ("options-changed-back", o7b[2], refd[0.5])] + extra
             for name, got, want in pairs:
                 err = (got - want).norm()
                 rep.count("relational-" + name)
